@@ -21,11 +21,12 @@ def lit_parts(e):
 
 
 class KGen:
-    def __init__(self, rng, contingent=False, tries=60):
+    def __init__(self, rng, contingent=False, tries=60, family=None):
         import unified_planning as up
         self.up = up
         self.rng = rng
         self.contingent = contingent
+        self.family = family          # None | "neg": negative goal literals falsified by conditional effects
         for _ in range(tries):
             try:
                 self._build()
@@ -78,6 +79,15 @@ class KGen:
         layered = rng.random() < 0.75
         self.layered = layered
         self.actions = []
+        if self.family == "neg":
+            self.skeleton = False
+            self.neg_family()
+            self.check_one_effect_per_ground_fluent()
+            if self.contingent:
+                self.add_constraints()
+            else:
+                self.pick_neg_states()
+            return
         self.skeleton = rng.random() < 0.55
         chain = self.skeleton_actions() if self.skeleton else []
         for ai in range(rng.randint(0, 2) if self.skeleton else rng.randint(2, 4)):
@@ -120,6 +130,80 @@ class KGen:
             self.add_constraints()
         else:
             self.pick_states()
+
+    def neg_family(self):
+        """Negative goal / precondition literals  not g  that a conditional effect  c -> g  can falsify, the possible
+        states differing on c (and on d when there is a chain  d -> c -> g); state order is permuted.  The state in which
+        the effect fires is the one that matters: dropping it (e.g. because the complement rule of the relevance
+        relation was not applied) makes the compiled problem accept plans that fail from it."""
+        from unified_planning.model import InstantaneousAction
+        em, rng, p = self.em, self.rng, self.problem
+        atoms = list(self.gfl)
+        rng.shuffle(atoms)
+        g, c = atoms[0], atoms[1]
+        rest = atoms[2:]
+        self.neg_g, self.neg_c = g, c
+        cpos = rng.random() < 0.7                       # the effect fires when c is true (else when c is false)
+        self.neg_cpos = cpos
+        lc = c if cpos else em.Not(c)
+        a = InstantaneousAction("n0", OrderedDict(), self.env)
+        conds = [lc]
+        self.neg_d = None
+        if rest and rng.random() < 0.25:
+            conds.append(rng.choice(rest))               # a second, known-or-unknown condition
+        a.add_effect(g, True, em.And(conds) if len(conds) > 1 else conds[0])
+        p.add_action(a)
+        self.actions.append(a)
+        if rest and rng.random() < 0.5:                  # with a chain  d -> c -> g  (the transitive step then adds something)
+            d = rest[0]
+            self.neg_d = d
+            b = InstantaneousAction("n1", OrderedDict(), self.env)
+            b.add_effect(c, cpos, d if rng.random() < 0.7 else em.Not(d))
+            p.add_action(b)
+            self.actions.append(b)
+        p.add_goal(em.Not(g))
+        if len(rest) >= 2 and rng.random() < 0.6:        # a positive goal that needs a step guarded by  not g
+            h = rest[1]
+            b = InstantaneousAction("n2", OrderedDict(), self.env)
+            b.add_precondition(em.Not(g))
+            b.add_effect(h, True)
+            p.add_action(b)
+            self.actions.append(b)
+            p.add_goal(h)
+        if rng.random() < 0.3:                           # one distractor from the general grammar
+            x = InstantaneousAction("a0", OrderedDict(), self.env)
+            self.add_effect(x, [])
+            p.add_action(x)
+            self.actions.append(x)
+
+    def pick_neg_states(self):
+        rng = self.rng
+        n = len(self.gfl)
+        ig, ic = self.gfl.index(self.neg_g), self.gfl.index(self.neg_c)
+        base = [False] * n
+        for i in range(n):
+            if i not in (ig, ic) and rng.random() < 0.25:
+                base[i] = True
+        quiet, firing = list(base), list(base)
+        quiet[ic] = not self.neg_cpos                    # the conditional effect does not fire from this state
+        firing[ic] = self.neg_cpos
+        states = [tuple(quiet), tuple(firing)]
+        if self.neg_d is not None and rng.random() < 0.6:
+            third = list(quiet)
+            third[self.gfl.index(self.neg_d)] = not third[self.gfl.index(self.neg_d)]
+            states.append(tuple(third))
+        if rng.random() < 0.2:
+            states.append(states[0])                     # duplicate
+        r = rng.random()
+        if r < 0.5:
+            pass                                         # the state where nothing fires is listed first
+        elif r < 0.75:
+            states.reverse()
+        else:
+            rng.shuffle(states)
+        self.bits = states
+        for fe, b in zip(self.gfl, states[0]):
+            self.problem.set_initial_value(fe, b)
 
     def skeleton_actions(self):
         """a chain  c1 -> c2 -> ... -> ck  of ground atoms, each achieved by an action that needs the previous one (as a
@@ -299,6 +383,21 @@ class KGen:
         n = len(self.gfl)
         for _ in range(40):
             cons = []
+            if self.family == "neg":
+                # c is unknown (the compiler enumerates c = false first); sometimes d too, or a oneof/or over c and d
+                cons = [("unknown", [self.neg_c])]
+                if self.neg_d is not None and rng.random() < 0.5:
+                    cons = [rng.choice([("unknown", [self.neg_d]), ("oneof", [self.neg_c, self.neg_d]),
+                                        ("or", [em.Not(self.neg_c), self.neg_d])])] + cons
+                    rng.shuffle(cons)
+                hidden = []
+                for _k, lits in cons:
+                    for l in lits:
+                        a = lit_parts(l)[0]
+                        if a not in hidden:
+                            hidden.append(a)
+                models = independent_models(self.gfl, hidden, cons, {})
+                break
             # the constraints draw their literals from a small pool of atoms, so that groups overlap (an atom in two
             # oneof groups, in a oneof and an or, positively and negatively, ...)
             pool = rng.sample(self.gfl, min(n, rng.choice([2, 3, 3, 4])))
@@ -324,7 +423,7 @@ class KGen:
         known = {}
         for fe in self.gfl:
             if fe not in hidden:
-                known[fe] = rng.random() < 0.3
+                known[fe] = rng.random() < 0.3 and not (self.family == "neg" and fe == self.neg_g)
                 p.set_initial_value(fe, known[fe])
         for kind, lits in cons:
             if kind == "unknown":
@@ -562,4 +661,37 @@ def hand_corpus():
         p.add_goal(g())
         return p, [(True, False, False), (False, False, True), (False, False, False)]
 
-    return [HandK(f.__name__, f) for f in (case_split_precondition, merge_needed, cancellation_needed, dominated_state)]
+    def neg_goal(order, chain, guarded):
+        # goal  not g ; conditional effect  c -> g ; the possible states differ on c.  The state with c true is NOT
+        # dominated (not c is relevant to not g by the complement rule).  order: which state is listed first;
+        # chain: an extra rule d -> c (so the transitive step of the relevance loop adds something);
+        # guarded: not g is (also) the precondition of an action achieving a positive goal h
+        def build(env):
+            em = env.expression_manager
+            p, (c, g, d, h) = base(env, "neg_goal", ["c", "g", "d", "h"])
+            a = InstantaneousAction("a", _env=env)
+            a.add_effect(g, True, c())
+            p.add_action(a)
+            if chain:
+                b = InstantaneousAction("b", _env=env)
+                b.add_effect(c, True, d())
+                p.add_action(b)
+            p.add_goal(em.Not(g()))
+            if guarded:
+                e = InstantaneousAction("e", _env=env)
+                e.add_precondition(em.Not(g()))
+                e.add_effect(h, True)
+                p.add_action(e)
+                p.add_goal(h())
+            quiet, firing = (False, False, False, False), (True, False, False, False)
+            states = [quiet, firing] if order == "quiet-first" else [firing, quiet]
+            if chain:
+                states.append((False, False, True, False))
+            return p, states
+        build.__name__ = "neg_goal_%s%s%s" % (order, "_chain" if chain else "", "_guarded" if guarded else "")
+        return build
+
+    builders = [case_split_precondition, merge_needed, cancellation_needed, dominated_state,
+                neg_goal("quiet-first", False, False), neg_goal("firing-first", False, False),
+                neg_goal("quiet-first", True, False), neg_goal("quiet-first", False, True)]
+    return [HandK(f.__name__, f) for f in builders]
